@@ -1,4 +1,5 @@
 import QmiModel.Lemmas.C12
+import QmiModel.Lemmas.C12Conc
 /-!
 # C12 — context lifecycle: unique names, clean failure, stop reclaims everything
 
@@ -65,7 +66,7 @@ theorem name_free_after_failed_ctor {c : Ctx} (h : WF c) (ha : c.active = true) 
   have h1 : WF (step c (.make k n true true rf rb)).1 := wf_step h _
   have hres := (failed_ctor_no_residue c k n true rf rb).2
   have hm : (step c (.make k n true true rf rb)).1.mgrs = c.mgrs := congrArg Residue.mgrs hres
-  have hf := flags_step c (.make k n true true rf rb) (by intros; simp) (by simp)
+  have hf := flags_step c (.make k n true true rf rb) (by intros; simp) (by simp) (by intros; simp)
   have hact : (step c (.make k n true true rf rb)).1.active = true := (congrArg Flags.active hf).trans ha
   exact step_make_ok h1 hact (by rw [hm]; exact hn) k' rf' rb'
 
@@ -133,7 +134,7 @@ theorem name_free_after_remove {c : Ctx} (h : WF c) (ha : c.active = true) {o : 
     (step (step c (.remove o.name)).1 (.make k o.name true false rf rb)).2 = .ok := by
   have h1 : WF (step c (.remove o.name)).1 := wf_step h _
   have hr := remove_no_residue h ho
-  have hf := flags_step c (.remove o.name) (by intros; simp) (by simp)
+  have hf := flags_step c (.remove o.name) (by intros; simp) (by simp) (by intros; simp)
   have hact : (step c (.remove o.name)).1.active = true := (congrArg Flags.active hf).trans ha
   have hn : o.name ∉ (step c (.remove o.name)).1.mgrs.map Obj.name := by
     intro hm
@@ -282,5 +283,229 @@ theorem active_implies_used (t : Bool) (ops : List Op) :
   induction ops with
   | nil => intro c h; exact h
   | cons op ops ih => intro c h; exact ih _ (used_of_active_step h op)
+
+
+/-- starting an active context and stopping an inactive one are usage errors that change nothing -/
+theorem double_start_stop_usage_error (c : Ctx) (t u : Bool) :
+    (c.active = true → step c (.start t u) = ({ c with log := [] }, .exc .usage)) ∧
+    (c.active = false → step c .stop = ({ c with log := [] }, .exc .usage)) := by
+  constructor
+  · intro ha; simp [step, start, ha]
+  · intro ha; simp [step, stop, stopHead, ha]
+
+example : (run (Ctx.init false) [.start false false]).active = true ∧
+    (run (Ctx.init false) [.start false false, .stop]).active = false := ⟨by decide, by decide⟩
+
+/-! ## a failed start -/
+
+/-- **False of the pinned tree** (full statement): a failed `start()` leaves nothing behind. -/
+def FailedStartLeavesNothing : Prop :=
+  ∀ (c : Ctx) (t u : Bool), (step c (.start t u)).2 ≠ .ok → (step c (.start t u)).1.residue = c.residue
+
+/-- negation witness: a fresh context with a TCP port configured, `bind` failing — the router thread stays
+(`QMI_Context.start` has no roll-back, and `stop()` then refuses: `double_start_stop_usage_error`).
+Replayed on the real code by harness/props/c12.py (`failed-start-residue:context:tcp`). -/
+theorem failed_start_leaves_nothing_false : ¬ FailedStartLeavesNothing := by
+  intro h
+  have := h (Ctx.init true) true false (by decide)
+  revert this
+  decide
+
+/-- what does hold: a failed start never touches the object map, the handler map, the live managers or the
+`active`/`used` flags; a refused start (already active, already used, router already up) leaves everything as it
+was; otherwise exactly the router thread and possibly the TCP listener are left. -/
+theorem failed_start_leaves_nothing_partial (c : Ctx) (t u : Bool) (hf : (step c (.start t u)).2 ≠ .ok) :
+    (step c (.start t u)).1.objMap = c.objMap ∧ (step c (.start t u)).1.handlers = c.handlers ∧
+    (step c (.start t u)).1.mgrs = c.mgrs ∧ (step c (.start t u)).1.active = c.active ∧
+    (step c (.start t u)).1.used = c.used ∧
+    ((c.active = true ∨ c.used = true ∨ c.routerUp = true) → (step c (.start t u)).1.residue = c.residue) ∧
+    ((step c (.start t u)).1.routerUp = true ∨ (step c (.start t u)).1.residue = c.residue) ∧
+    ((step c (.start t u)).1.conns = c.conns ∨ (step c (.start t u)).1.conns = c.conns ++ [.tcp]) := by
+  revert hf
+  cases hA : c.active <;> cases hU : c.used <;> cases hR : c.routerUp <;> cases hT : c.cfgTcp <;> cases t <;> cases u <;>
+    simp [step, start, hA, hU, hR, hT, Ctx.residue]
+
+/-- a failed start can not be cleaned up through the public API: `stop()` refuses and a second `start()` trips the
+router's assertion, in every continuation that does not … there is none: the state is absorbing for start/stop. -/
+theorem failed_start_is_stuck (c : Ctx) (ha : c.active = false) (hu : c.used = false) (hr : c.routerUp = true)
+    (t u : Bool) :
+    step c .stop = ({ c with log := [] }, .exc .usage) ∧
+    step c (.start t u) = ({ c with log := [] }, .exc .assertion) := by
+  constructor
+  · simp [step, stop, stopHead, ha]
+  · simp [step, start, ha, hu, hr]
+
+/-! ## the process can start a new context -/
+
+/-- `qmi.start(name)` without faults -/
+def qClean (t : Bool) : POp := .qstart true t false false []
+
+/-- directly, or after the public clean-up `qmi.stop()` -/
+def CanStartAgain (p : Proc) (t : Bool) : Prop :=
+  (pstep p (qClean t)).2 = .ok ∨ (pstep (pstep p .qstop).1 (qClean t)).2 = .ok
+
+/-- **False of the pinned tree** (full statement): after every history the process can start a context. -/
+def ProcessCanStartAgain : Prop := ∀ (ops : List POp) (t : Bool), CanStartAgain (prun Proc.init ops) t
+
+/-- negation witness (DESIGN §7 f): `qmi.start()` with the TCP port busy. Replayed on the real code by
+harness/props/c12.py (`cannot-start-again:singleton:tcp`). -/
+theorem process_can_start_again_false : ¬ ProcessCanStartAgain := by
+  intro h
+  have := h [.qstart true true true false []] true
+  revert this
+  unfold CanStartAgain
+  decide
+
+/-- the singleton is stuck for ever after a start that failed inside `QMI_Context.start()`: in every continuation
+(any mix of `qmi.start`, `qmi.stop`, `qmi.context`, and operations on the context) both `qmi.start()` and
+`qmi.stop()` raise `QMI_UsageException`. -/
+theorem singleton_stuck_forever (p : Proc) (hp : StuckP p) (ops : List POp) (v t tf uf : Bool) (peers : List Bool) :
+    (pstep (prun p ops) (.qstart v t tf uf peers)).2 = .exc .usage ∧
+    (pstep (prun p ops) .qstop).2 = .exc .usage ∧ ¬ CanStartAgain (prun p ops) t := by
+  have hs := stuckP_prun hp ops
+  generalize prun p ops = q at hs
+  have e1 := stuckP_qstart hs
+  have e2 := stuckP_qstop hs
+  refine ⟨(e1 v t tf uf peers).2, e2.2, ?_⟩
+  intro hc
+  rcases hc with hc | hc
+  · rw [qClean, (e1 true t false false []).2] at hc; cases hc
+  · have hs2 : StuckP (pstep q .qstop).1 := stuckP_pstep hs _
+    rw [qClean, (stuckP_qstart hs2 true t false false []).2] at hc; cases hc
+
+/-- … and that state is what a failing TCP or UDP bind produces -/
+theorem failed_qstart_is_stuck (t tf uf : Bool) (peers : List Bool) (hf : (t && tf) = true ∨ uf = true) :
+    StuckP (pstep Proc.init (.qstart true t tf uf peers)).1 := by
+  cases t <;> cases tf <;> cases uf <;> simp_all [StuckP, pstep, pstep', Proc.clr, Proc.init, qstart, start, Ctx.init]
+
+/-- what does hold: from every state in which the singleton is absent, or present, active and well-formed (with
+`Exception`-only stop handlers) — in particular after any `qmi.stop()` that returned, after a `qmi.start()` that
+failed only because a peer was unreachable, and whatever constructor / release / stop-handler faults occurred —
+the process can start a context again, at the latest after `qmi.stop()`. -/
+theorem process_can_start_again_partial (p : Proc) (hp : GoodP p) (t : Bool) : CanStartAgain p t := by
+  have hstart : ∀ t, (pstep Proc.init (qClean t)).2 = .ok := by intro t; cases t <;> decide
+  rcases hp with hn | ⟨c, hc, hw, ha, hb⟩
+  · left
+    have : p = Proc.init := by cases p; simp_all [Proc.init]
+    rw [this]; exact hstart t
+  · right
+    have h0 : WF { c with log := [] } := hw.congr rfl rfl rfl rfl rfl
+    have : (pstep p .qstop).1 = Proc.init := by
+      simp only [pstep, pstep', Proc.clr, hc, Option.map_some, qstop]
+      rw [stop_ok h0 ha hb]
+      rfl
+    rw [this]; exact hstart t
+
+/-- the good states are closed under everything except the three ways to leave them: a start step failing inside
+`QMI_Context.start()`, stopping the singleton's context behind `qmi`'s back, a non-`Exception` stop handler -/
+theorem good_preserved (p : Proc) (hp : GoodP p) (o : POp) (ho : Harmless o) : GoodP (pstep p o).1 :=
+  goodP_pstep hp ho
+
+/-- consequently: after any history of harmless operations, with every other fault allowed -/
+theorem process_can_start_again_after (ops : List POp) (h : ∀ o ∈ ops, Harmless o) (t : Bool) :
+    CanStartAgain (prun Proc.init ops) t := by
+  apply process_can_start_again_partial
+  suffices ∀ p, GoodP p → GoodP (prun p ops) from this _ (Or.inl rfl)
+  induction ops with
+  | nil => intro p hp; exact hp
+  | cons o os ih =>
+    intro p hp
+    exact ih (fun x hx => h x (List.mem_cons_of_mem _ hx)) _ (goodP_pstep hp (h o List.mem_cons_self))
+
+
+/-! ## `stop()` racing `make_rpc_object()` from another thread (layer C, all schedules) -/
+
+/-- an active context holding only `$context` -/
+def raceCtx : Ctx := populated false []
+/-- … and one holding a running task whose release step raises, too -/
+def raceArgs : MakeArgs := { k := .rpc, n := 4, ctorF := false, relF := false, runB := .loop }
+def raceArgsF : MakeArgs := { k := .task, n := 4, ctorF := true, relF := true, runB := .raise }
+
+/-- **The race exists** (false of the pinned tree: "stopping a context … releases every remaining object exactly
+once, ends all its threads"): the maker publishes the manager in the object map (second locked block), `stop()`
+collects it under the lock and calls `unregister_message_handler` before the maker has registered it.  `stop()`
+raises `QMI_UnknownNameException`, the maker returns a proxy, the new object's thread and handler survive in a
+stopped context and its release step never runs.  Replayed on the real code under the deterministic scheduler
+(`conc:stop-raises:QMI_UnknownNameException`). -/
+theorem race_exists :
+    ((crun raceArgs (cinit raceCtx) [true, true, true, false, false, false, false, false, true] 11).outcome).race = true := by
+  decide
+
+private theorem race_half_true : ∀ s ∈ allScheds 10,
+    (((crun raceArgs (cinit raceCtx) (true :: s) 11).outcome).clean ||
+      ((crun raceArgs (cinit raceCtx) (true :: s) 11).outcome).race) = true := by
+  decide +kernel
+
+private theorem race_half_false : ∀ s ∈ allScheds 10,
+    (((crun raceArgs (cinit raceCtx) (false :: s) 11).outcome).clean ||
+      ((crun raceArgs (cinit raceCtx) (false :: s) 11).outcome).race) = true := by
+  decide +kernel
+
+/-- … and it is the **only** way `stop ‖ make` goes wrong: under every schedule both threads finish within 11
+steps and the outcome is either clean (stop returned; object map, handler map, threads, sockets empty; the maker got
+`ok` or an exception; every object that existed or was constructed was released exactly once) or the race above. -/
+theorem stop_make_all_schedules (sched : List Bool) :
+    ((crun raceArgs (cinit raceCtx) sched 11).outcome).clean = true ∨
+    ((crun raceArgs (cinit raceCtx) sched 11).outcome).race = true := by
+  refine forall_sched raceArgs (cinit raceCtx) 11
+    (fun st => st.outcome.clean = true ∨ st.outcome.race = true) ?_ sched
+  intro s hs
+  simp only [allScheds, List.mem_flatMap] at hs
+  obtain ⟨l, hl, hs⟩ := hs
+  have hl' : l ∈ allScheds 10 := by simpa only [allScheds, List.mem_flatMap] using hl
+  simp only [List.mem_cons, List.not_mem_nil, or_false] at hs
+  rcases hs with rfl | rfl
+  · have := race_half_true l hl'
+    simpa [Bool.or_eq_true] using this
+  · have := race_half_false l hl'
+    simpa [Bool.or_eq_true] using this
+
+private theorem racef_half_true : ∀ s ∈ allScheds 10,
+    ((crun raceArgsF (cinit raceCtx) (true :: s) 11).outcome).clean = true := by
+  decide +kernel
+
+private theorem racef_half_false : ∀ s ∈ allScheds 10,
+    ((crun raceArgsF (cinit raceCtx) (false :: s) 11).outcome).clean = true := by
+  decide +kernel
+
+/-- a maker whose constructor fails never races: every schedule ends clean (the reservation is rolled back, the
+failed object is not released, `stop()` returns) -/
+theorem stop_make_failed_ctor_all_schedules (sched : List Bool) :
+    ((crun raceArgsF (cinit raceCtx) sched 11).outcome).clean = true := by
+  refine forall_sched raceArgsF (cinit raceCtx) 11 (fun st => st.outcome.clean = true) ?_ sched
+  intro s hs
+  simp only [allScheds, List.mem_flatMap] at hs
+  obtain ⟨l, hl, hs⟩ := hs
+  have hl' : l ∈ allScheds 10 := by simpa only [allScheds, List.mem_flatMap] using hl
+  simp only [List.mem_cons, List.not_mem_nil, or_false] at hs
+  rcases hs with rfl | rfl
+  · exact racef_half_true l hl'
+  · exact racef_half_false l hl'
+
+/-- layer A's `make` *is* the sequential composition of the layer-C steps (the maker running alone) -/
+theorem make_is_sequential_composition (c : Ctx) (a : MakeArgs) :
+    runM a 5 (c, .reserve) =
+      ((make c a.k a.n true a.ctorF a.relF a.runB).1, .done (make c a.k a.n true a.ctorF a.relF a.runB).2) := by
+  unfold make
+  simp only [Bool.not_true, Bool.false_eq_true, if_false]
+  cases h1 : mkReserve c a.n with
+  | error e => simp only [runM, stepM, h1]
+  | ok c1 =>
+    cases h2 : mkConstruct c1 a.k a.n a.ctorF a.relF a.runB with
+    | mk c2 oo =>
+      cases oo with
+      | none => simp only [runM, stepM, h1, h2]
+      | some o =>
+        cases h3 : mkPublish c2 a.n o with
+        | error e => simp only [runM, stepM, h1, h2, h3]
+        | ok c3 =>
+          cases h4 : register c3 a.n o.id with
+          | error e => simp only [runM, stepM, h1, h2, h3, h4]
+          | ok c4 => simp only [runM, stepM, h1, h2, h3, h4]
+
+/-- … and likewise `stop` (the stopper running alone; `k` bounds the number of managers) -/
+theorem stop_is_sequential_composition (c : Ctx) :
+    runS (2 + 2 * c.objMap.length) (c, .head) = ((stop c).1, .done (stop c).2) :=
+  runS_stop c
 
 end QmiModel.Context
